@@ -675,7 +675,7 @@ func (s *inProcessClientStream) Header() (metadata.MD, error) {
 	if s.state == streamStateHeaders {
 		m, err := readMessage(s.ctx, s.responses)
 		if err != nil && err != io.EOF {
-			return nil, err
+			return nil, internal.TranslateContextError(err)
 		}
 		if err == io.EOF {
 			s.state = streamStateClosed
